@@ -111,6 +111,36 @@ def make_job(chk, rng, i):
             "expect_build": expect_build, "features": sorted(feats)}
 
 
+def make_big_job(chk, rng, i):
+    """A keyword trie with more single-transition states than any of the generator's fixed
+    work lists holds (tblcmp.c puts off 500 of them at a time), next to an identifier rule."""
+    p = gen.default_profile()
+    p["nrules"] = (1, 1)
+    g, case = tokens.base_case(chk, rng, p)
+    nkw = rng.choice([150, 180, 240])
+    kws = set()
+    while len(kws) < nkw:
+        kws.add(bytes(rng.choice(b"abcdefghijklmnopqrstuvwxyz") for _ in range(rng.rint(6, 8))))
+    kws = sorted(kws)
+    rng.shuffle(kws)
+    case["defs"] = []
+    case["rules"] = [{"scs": None, "bol": False, "pat": ("str", k), "trail": None, "act": []} for k in kws]
+    case["rules"].append({"scs": None, "bol": False, "pat": ("plus", ("ccl", False, [("r", 97, 122)])),
+                          "trail": None, "act": []})
+    inputs = []
+    for k in range(4):
+        words = []
+        for w in kws[k::4]:
+            words += [w, w[:-1], w + b"x", w[:rng.rint(1, len(w) - 1)] + bytes([rng.choice(b"abcxyz")])]
+        inputs.append({"sources": [b" ".join(words) + b"\n"], "sched": [0]})
+    configs = []
+    for j, tb in enumerate(["-Cem", "-Ce", "-Cm", "-C", "-Cf", "-CFe"]):
+        configs.append({"flavour": ["nr", "r", "c99"][(i + j) % 3], "flexargs": (tb,) + (("-8",) if "f" in tb else ()),
+                        "opts": {"bits": 8}, "_tb": tb})
+    case["budget"] = {"events": 4000}
+    return {"case": case, "configs": configs, "inputs": inputs, "features": ["big_trie"]}
+
+
 # --------------------------------------------------------------------------- part B
 BASE = "%%option noyywrap\n%s\n%%%%\n%s\n%%%%\nint main(void) { return 0; }\n"
 RULES_PLAIN = "ab   { return 1; }\n.|\\n { return 2; }"
@@ -202,13 +232,14 @@ def run(pid, tier):
     chk.rule = RULE
     n = 16 if tier == "quick" else 200
     lib.explore(chk, range(n), make_job)
+    lib.explore(chk, range(1000, 1000 + (2 if tier == "quick" else 12)), make_big_job)
     refusal_checks(chk)
     for t in TABLES:
         chk.require("tables:" + t)
     for fl in FLAVS:
         chk.require("flavour:" + fl)
     for k in ("align", "bits:7", "bits:8", "interactive:True", "interactive:False", "array:True",
-              "array:False", "cli:True", "cli:False", "reject", "yymore", "trail_fire"):
+              "array:False", "cli:True", "cli:False", "reject", "yymore", "trail_fire", "big_trie"):
         chk.require(k)
     chk.require("refusal_ok", 15)
     chk.require("override_ok", 1)
